@@ -96,7 +96,8 @@ def cq_cluster(c):
 
 
 OP = {"add": "Add", "update": "Update", "update-irrelevant": "Update", "update-invalid": "Update", "update-valid": "Update",
-      "update-metadata": "Update", "relabel-to": "Update", "relabel-away": "Update", "delete": "Delete"}
+      "update-metadata": "Update", "relabel-to": "Update", "relabel-away": "Update", "update-recreated": "Update", "rollout": "Update",
+      "delete": "Delete"}
 
 
 def events_of(o, model=False):
@@ -108,9 +109,11 @@ def events_of(o, model=False):
 
 def ev_bad(x):
     """Refs.Cases.ev_ok in python, for the report: which clause an event violates"""
+    if x.get("fresh_diff"):
+        return "differs-from-fresh-controller"
     if x["stale"]:
         return "stale-after-event"
-    if x.get("dep") and not x["regen"] and not (OP[x["op"]] == "Update" and not x["relevant"]):
+    if x.get("dep") and not x["regen"] and not (OP[x["op"]] == "Update" and not x.get("material", True)):
         return "not-regenerated"
     return None
 
@@ -128,8 +131,9 @@ def case_to_coq(c):
     revs = L("(Build_rev %s %s %s %s %s %s)" % (KIND[r["kind"]], S(r["ns"]), S(r["name"]), B(r["direct"]), L(S(v) for v in r["via"]),
                                                 B(r["req"])) for r in o["rev"])
     pf = L("(%s, %s, %s)" % (S(p["skel"]["ns"]), S(p["skel"]["name"]), B(p["found"])) for p in o["pols"])
-    evs = L("(Build_ev %s %s %s %s %s %s %s %s)" % ((KIND[x["kind"]],) + tuple(S(t) for t in x["key"].split("/", 1)) +
-                                                     (OP[x["op"]], B(x["relevant"]), B(x["regen"]), B(x["stale"]), B(x.get("dep"))))
+    evs = L("(Build_ev %s %s %s %s %s %s %s %s %s)" % ((KIND[x["kind"]],) + tuple(S(t) for t in x["key"].split("/", 1)) +
+                                                        (OP[x["op"]], B(x["relevant"]), B(x["regen"]), B(x["stale"]), B(x.get("dep")),
+                                                         B(x.get("material", True))))
             for x in events_of(o, model=True))
     return "res_case %d %s %s %s %s %s %s %s %s" % (c["eid"], env, cq_cluster(c), cq_resource(o["skel"]), L(cq_dep(d) for d in deps_of(o)),
                                                     L(cq_dep(d) for d in o["lookups"]), revs, pf, evs)
@@ -338,6 +342,8 @@ def judge(run, cases, res):
                         if x.get("recreate") else "")
                 what = ("the configuration of %s is not what a regeneration from the stores produces (regenerated=%s)" % (o["res_key"], x["regen"])
                         if bad == "stale-after-event" else
+                        "the configuration of %s (regenerated=%s) is not what a controller started afresh on the same cluster writes" % (o["res_key"], x["regen"])
+                        if bad == "differs-from-fresh-controller" else
                         "%s, which was observed to depend on it, was not regenerated" % o["res_key"])
                 run.failing(sig, [c], "case %d (%s): after the %s of %s %s (position %s) went through the real handler and lbc.sync%s, %s"
                             % (cid, c["class"], x["op"], x["kind"], x["key"], pos, hist, what), theorem="Refs.Cases.ev_spec_ok")
